@@ -54,8 +54,9 @@ def xml_cases(tier):
         for b in extra:
             yield {'kind': 'xml', 'a': a, 'b': b, 'opt': ['auto', 'on']}
     if tier == 'quick':
-        # one tag, with and without text, 0-2 children: covers children / text appearing in or vanishing from an element
-        els = [e for e in els if e['tag'] == 'a' and not e.get('attrib') and e.get('text') in (None, 't')]
+        # one tag, with and without text / attribute, 0-2 children: covers children, text and attributes appearing in or
+        # vanishing from an element
+        els = [e for e in els if e['tag'] == 'a' and e.get('text') in (None, 't') and len(e.get('children') or []) <= (1 if e.get('attrib') else 2)]
     for a in els:
         for b in els:
             yield {'kind': 'xml', 'a': a, 'b': b, 'opt': ['auto', 'on']}
